@@ -158,6 +158,7 @@ def run(prop: str, tier: str) -> int:
         run_items(rep, prop, ids, "str0", quick, "c14-falsy-ids")          # explicit ids 0 and ""
         run_items(rep, prop, ids, "dataclass", quick, "c14-ids-objects")   # incl. mapper pairs that relocate the id
         run_items(rep, prop, plain if not quick else plain[::3], "ustr", quick, "c14-unicode")
+        run_items(rep, prop, plain if not quick else plain[::2], "unhash", quick, "c14-unhashable")
     else:
         if prop == "C12":
             doc_examples(rep, prop)
@@ -171,6 +172,8 @@ def run(prop: str, tier: str) -> int:
         run_items(rep, prop, plain if not quick else plain[::3], "ustr", quick, "unicode")
         # DictWrapper data with the library's own mapper pair (maps that name keys of the user's dicts)
         run_items(rep, prop, plain if not quick else plain[1::2], "dwrap", quick, "dictwrapper")
+        # plain dicts (unhashable) identified by an id callback: every entry carries its data_id
+        run_items(rep, prop, plain if not quick else plain[::2], "unhash", quick, "unhashable")
         if prop == "C05":
             # ... which keeps neither a node's explicit data_id nor its kind (open findings KF-dictwrapper-mapper-*)
             run_items(rep, prop, ids if not quick else ids[::3], "dwrapx", quick, "dictwrapper-ids")
